@@ -86,6 +86,11 @@ def defaultStateEnvCheck (nspecies nenv : Nat) (cellEnv : List Int) : Res Unit :
   if nspecies == 0 then .ok ()
   else if cellEnv.all (tupleIndexOk nenv) then .ok () else .error .outOfRange
 
+/-- `RDSystem(network, space, state, chemostats)`: the environment map is looked up only while a default
+state or a default chemostat map is generated (`state` / `chemostats` omitted or given as a dictionary) -/
+def systemEnvCheck (stateGiven chemGiven : Bool) (nspecies nenv : Nat) (cellEnv : List Int) : Res Unit :=
+  if stateGiven && chemGiven then .ok () else defaultStateEnvCheck nspecies nenv cellEnv
+
 /-! ### Positions, species, state access -/
 
 inductive Space where
@@ -108,6 +113,19 @@ def Space.cellIndex : Space → Pos → Res Int
   | .grid g, .xyz x y z => pyCellIndexOfCoords g x y z
   | .graph n, .num p => if graphIndexBad n p then .error .outOfRange else .ok p
   | .graph _, .xyz _ _ _ => .error .typeError        -- `int(tuple)`
+
+/-- the position check of a positional accessor of the space classes (`get_cell_env`, `get_cell_vol`,
+`get_neighbors`, …): the cell index when the method validates its argument, nothing when it does not -/
+def Space.accessorCheck (sp : Space) (accessor : String) (p : Pos) : Res (Option Int) :=
+  let guards := match sp with
+    | .grid _ => gridAccessorGuards
+    | .graph _ => graphAccessorGuards
+  match guards.lookup accessor with
+  | none => .error .notImplemented
+  | some true => match sp.cellIndex p with
+    | .error e => .error e
+    | .ok i => .ok (some i)
+  | some false => .ok none
 
 inductive SpeciesRef where
   | idx (i : Int)
